@@ -22,6 +22,26 @@ SUMMARY = {
  "C18-a": ("_update_param skips (and does not mark) unchanged values", "report whose first value equals the stored reading and that mentions the letter again"),
  "C19-a": ("raster _filter_points compares with the previous sample, not the previous kept one", "gentle ramp: every step below the tolerance, accumulated change above it"),
  "C20-a": ("_prepare_move/_prepare_rapid called before entering absolute_mode() in the bypass moves", "hook registered + relative mode + move_absolute from a non-zero position"),
+ "C01-b": ("number() re-implemented with builtin formatting + rstrip('0')", "decimal_places=0 and a value whose rounded form ends in 0 (120 -> 'X12')"),
+ "C02-b": ("_set_tool_power clears the tool-active flag when the power is 0", "tool on, then S0 on a move or set_tool_power(0), then any interlocked command"),
+ "C03-b": ("_prepare_move formats the line from the hooks' result but returns the caller's params for validation", "bounds on F/S + a hook that returns a *new* mapping carrying an out-of-range word"),
+ "C04-b": ("probe(): `{X: move.x, ..., **params}` - raw coordinates override the transformed ones", "any probe while a non-identity transform is active"),
+ "C05-b": ("halt() stores the target temperature before the interlock check, rollback dropped", "tool or coolant on + halt(wait-for-*, S/R=new value)"),
+ "C06-b": ("_set_power_mode uses the validating setter for the implicit 0 again", "tool-power bounds excluding zero + power_off()"),
+ "C07-b": ("_update_axes tracks F/S from the merged last-value cache instead of the move's own params", "move with F/S, then a non-move command changing the modal value, then a move without that word"),
+ "C08-b": ("number() memoises the formatted text per value; set_decimal_places does not clear it", "same value emitted before and after a run-time precision change on one builder"),
+ "C09-b": ("closing delimiter cached on first use; set_comment_symbols does not reset it", "comment under one style, style switched at run time, text containing the new closing delimiter"),
+ "C10-b": ("thread() axis computed with to_distance_mode((o+t)/2)", "absolute mode, thread started away from the XY origin"),
+ "C11-b": ("parametric(): relative offsets taken from the curve's own first sample (np.diff with prepend)", "relative mode + trace.parametric with a function whose f(0) is not the current position"),
+ "C12-b": ("sample count = length * int(10 / resolution)", "resolution above 10 units (large-format work)"),
+ "C13-b": ("named restore copies only the matrix, not the pivot saved with the state", "named state saved under pivot P1, pivot changed on the live object, restore, then rotate/scale"),
+ "C14-b": ("remove_writer() also disconnects the writer", "path-based file written, removed, re-added and written again (re-open truncates)"),
+ "C15-b": ("gcoder append_lines records in-layer index i instead of len(layer)+i", "job with a z-hop that returns to an earlier layer height"),
+ "C16-b": ("error branch sets the ack event before storing the device error", "error/alarm/!! reply + reader pre-empted right after set(): the error surfaces one call late or never"),
+ "C17-b": ("_readline_buf keeps the remainder only if len(line) < len(chunk)", "line assembled from several reads whose completing chunk carries a short tail"),
+ "C18-b": ("identical plain report lines are skipped; the ok-path does not update the remembered line", "plain report R, then an ok-prefixed report changing R's letters, then R again"),
+ "C19-b": ("sparse sample_path filters unscaled heights and scales afterwards", "live sparse map with set_scale(s > 1) and a line whose scaled changes exceed the tolerance"),
+ "C20-b": ("hooks all receive the original params; only the last result is kept", ">= 2 hooks and a non-last hook returning a new mapping"),
 }
 rows = []
 for mp in sorted(glob.glob("/verif/seeded/*/meta.json")):
